@@ -57,6 +57,8 @@ def check_case(case, ctx):
         ctx.label("R-with-inf/huge/denormal-samples")
     if plot.payload.get("k_inf"):
         ctx.label("K-with-infinite-columns")
+    if plot.payload.get("amp", 1.0) != 1.0:
+        ctx.label(f"amplitude:{plot.payload['amp']:g}")
     names = plot.fields
     if case["mode"] == "all":
         req, out_names, do_grid = ["all"], list(names), True
@@ -177,19 +179,18 @@ def check_case(case, ctx):
         if name in ("T", "R"):
             exp, scale, on_centre = slicegen.reference_values(plot, cn, L, ref, names.index(name), with_scale=True)
             m = ref["strict"] & ~np.isnan(exp)
-            extra = 0.0
+            with np.errstate(all="ignore"):
+                # relative to the larger bracketing sample (no absolute floor: small-amplitude fields are asserted as tightly)
+                extra = np.where(np.isfinite(scale), 1e-9 * scale, 0.0) + 1e-300
             if name == "R" and plot.payload.get("r_specials"):
                 # with infinite / 1e300 samples around, a plane on a cell centre is ill-conditioned (weight 0 or one
-                # ulp times an infinite neighbour): only planes strictly between two centres are asserted, with the
-                # rounding of the larger bracketing sample added to the tolerance
+                # ulp times an infinite neighbour): only planes strictly between two centres are asserted
                 m = m & ~on_centre
-                with np.errstate(all="ignore"):
-                    extra = np.where(np.isfinite(scale), 1e-12 * scale, 0.0)
             ctx.counters["strict_pixels"] += int(m.sum())
             ctx.counters["pixels"] += int(m.size)
             with np.errstate(all="ignore"):
                 # equal infinities are equal; inf - inf (opposite infinite samples) is NaN in the reference and skipped above
-                bad = m & ~((g == exp) | (np.abs(g - exp) <= 1e-9 * np.maximum(np.abs(exp), 1.0) + extra))
+                bad = m & ~((g == exp) | (np.abs(g - exp) <= 1e-9 * np.abs(exp) + extra))
             if bad.any():
                 ij = tuple(np.argwhere(bad)[0])
                 v.append(f"{name}: pixel {ij} = {g[ij]!r} is not the linear interpolation of the two bracketing stored "
